@@ -83,6 +83,13 @@ class Sym:
                     out |= self.sym(B, rv["o"], env, depth - 1)
                 elif rv["k"] == "ref":
                     out |= self.sym_place(B, rv["p"], env, depth - 1)
+                elif rv["k"] == "agg" and rv["ak"] in ("tuple", "adt") and place["p"] and self._agg_member(rv, place["p"]) is not None:
+                    # a member of a value built here: `t.1`, `(x as Some).0.1` - the projection goes on into the member
+                    op_, rest_ = self._agg_member(rv, place["p"])
+                    if op_["k"] in ("copy", "move"):
+                        out |= self.sym_place(B, {"l": op_["p"]["l"], "p": op_["p"]["p"] + rest_}, env, depth - 1)
+                    else:
+                        out |= self.sym(B, op_, env, depth - 1)
                 elif rv["k"] == "agg" and rv["ak"] == "tuple" and fields and fields[0].isdigit():
                     out |= self.sym(B, rv["ops"][int(fields[0])], env, depth - 1)
                 else:
@@ -90,6 +97,19 @@ class Sym:
             elif kind == "call":
                 out |= self.sym_call(B, bi, payload, env, depth - 1)
         return out or {"<undef>"}
+
+    @staticmethod
+    def _agg_member(rv, proj):
+        pr = [e for e in proj if e != "*"]
+        if not pr:
+            return None
+        if rv["ak"] == "adt" and isinstance(pr[0], dict) and "d" in pr[0]:
+            if rv.get("variant") != pr[0]["d"] or len(pr) < 2 or not (isinstance(pr[1], dict) and "f" in pr[1]) or pr[1]["f"] >= len(rv["ops"]):
+                return None
+            return rv["ops"][pr[1]["f"]], pr[2:]
+        if isinstance(pr[0], dict) and "f" in pr[0] and "d" not in pr[0] and pr[0]["f"] < len(rv["ops"]):
+            return rv["ops"][pr[0]["f"]], pr[1:]
+        return None
 
     def sym_call(self, B, bi, t, env, depth):
         w, r = mir.callee_of(t)
